@@ -347,6 +347,32 @@ def _run(repo, rep):
     table_rules(repo, rep)
 
 
+def variance_guard_rule(repo, rep):
+    """a covariance with an exactly zero variance (a horizontal-only 3x3, a 3x1 column with no up component) is positive SEMI-definite and
+    valid: a raising test on the diagonal may refuse negative values only.  `diag <= 0`, `not diag > 0`, `min(diag) <= 0` in front of a raise
+    refuse the zero.  One instance per covariance function."""
+    for q in ('vcv_local2cart', 'vcv_cart2local', 'error_ellipse', 'relative_error'):
+        f = repo.func('geodepy.statistics', q)
+        key = 'R-GUARD::geodepy/statistics.py::%s::zero-variance' % q
+        hit = None
+        for n in ast.walk(f.node):
+            if not isinstance(n, ast.If) or not any(isinstance(x, ast.Raise) for st in n.body for x in ast.walk(st)):
+                continue
+            negated = isinstance(n.test, ast.UnaryOp) and isinstance(n.test.op, ast.Not)
+            for c in ast.walk(n.test):
+                if isinstance(c, ast.Compare) and len(c.ops) == 1 and isinstance(c.comparators[0], ast.Constant) and c.comparators[0].value == 0 \
+                        and any(isinstance(x, ast.Call) and (getattr(x.func, 'attr', '') or getattr(x.func, 'id', '')) in ('diagonal', 'diag', 'trace') or isinstance(x, ast.Subscript)
+                                for x in ast.walk(c.left)):
+                    refuses_zero = isinstance(c.ops[0], ast.LtE) if not negated else isinstance(c.ops[0], ast.Gt)
+                    if refuses_zero:
+                        hit = (n, c)
+        if hit:
+            rep.violated('R-GUARD', key, where(f, hit[0]), '%s raises when `%s`: a variance of exactly zero (a covariance without an up component, one known coordinate) is refused although '
+                         'such a matrix is a valid positive semi-definite covariance' % (q, stmt_text(hit[1])[:60]), expected='< 0', actual=stmt_text(hit[0].test)[:100])
+        else:
+            rep.holds('R-GUARD', key, where(f, f.node), 'no raise refuses a zero variance', work=False)
+
+
 def exact_symmetry_guard_rule(repo, rep):
     """a covariance that comes out of a rotation (R^T V R, what vcv_cart2local returns and vcv_local2cart is then given: the round trip of the
     property) is symmetric only to the last bit.  A raising test that demands bit-exact symmetry of an argument (`array_equal(v, v.T)`,
@@ -385,6 +411,7 @@ def run(repo, rep):
     # consumed or updated by a call
     common.state_rule(repo, rep, [('geodepy.statistics', q_) for q_ in ('k_val95', 'error_ellipse', 'relative_error', 'vcv_local2cart', 'vcv_cart2local', 'rotation_matrix')])
     exact_symmetry_guard_rule(repo, rep)
+    variance_guard_rule(repo, rep)
     common.partial_call_rule(repo, rep, [('geodepy.statistics', 'vcv_local2cart'), ('geodepy.statistics', 'vcv_cart2local'), ('geodepy.statistics', 'error_ellipse'), ('geodepy.statistics', 'relative_error')], 'the covariance matrices')
     # in-place array updates met while evaluating the functions above (element type follows the caller's numbers)
     common.dtype_rule(repo, rep, [('geodepy.statistics', 'vcv_local2cart'), ('geodepy.statistics', 'vcv_cart2local'), ('geodepy.statistics', 'rotation_matrix'), ('geodepy.statistics', 'error_ellipse'), ('geodepy.statistics', 'relative_error'),
